@@ -13,10 +13,12 @@ func init() {
 			Pkgs:          []string{"board", "eval", "attacks"},
 			SliderSummary: true,
 			Bounds: []string{
-				"ARBITRARY valid placement (62 symbolic cells, no material bound, promoted material included), halfmove clock 0..127, case split on (side to move, white king square, black king square): quick 1 pair (e1/e8) x 2 sides, thorough 24 pairs x 2 sides (of 3612 possible pairs)",
-				"PARTIAL: symmetry is decided per term group, not for Eval as a whole: (1) the placement-based terms (material, tempo, bishop pair, passers, doubled/isolated pawns, piece-square, mobility, outposts, connected rooks) and three of the four king-attack groups (attacking pieces, bishop/knight safe checks, shelter) are colour-symmetric when computed by the repository's own term functions in Eval's order on a position and on its mirror image; (2) the final combination (sigmoid, tapering by phase and halfmove clock, mover's view, endgame score) is a symmetric function of ARBITRARY 16-bit term totals. NOT closed within 10-15 minutes per query and therefore not claimed: the queen/rook safe-check group, the special endings (insufficient material, KNB v K), the identity Eval == tapered sum of these terms, and the whole-Eval miter Eval(b) == Eval(mirror b)",
+				"ARBITRARY valid placement (62 symbolic cells, no material bound, promoted material included), halfmove clock 0..127, case split on (side to move, white king square, black king square): quick 3 pairs (e1/e8, g1/g8, a1/h8) x 2 sides, thorough 24 pairs x 2 sides (of 3612 possible pairs)",
+				"special endings (insufficient material, knight+bishop against the bare king): on every position of the minor-piece class the REAL Eval computes exactly the special path (closed term-for-term after deciding Eval's material tests by the class assumption), the material classes are mirror-invariant and the special path scores a position and its mirror image equally from the mover's view",
+				"PARTIAL: symmetry is decided per term group, not for Eval as a whole: (1) the placement-based terms (material, tempo, bishop pair, passers, doubled/isolated pawns, piece-square, mobility, outposts, connected rooks) and three of the four king-attack groups (attacking pieces, bishop/knight safe checks, shelter) are colour-symmetric when computed by the repository's own term functions in Eval's order on a position and on its mirror image; (2) the final combination (sigmoid, tapering by phase and halfmove clock, mover's view, endgame score) is a symmetric function of ARBITRARY 16-bit term totals. NOT closed within 10-15 minutes per query and therefore not claimed: the queen/rook safe-check group, the identity Eval == tapered sum of these terms, and the whole-Eval miter Eval(b) == Eval(mirror b)",
 			},
-			Assumptions: []string{"run-time panics inside Eval (table index ranges driven by popcounts) are not part of this check: paths are not restricted by a no-panic assumption either"},
+			Outside: []string{"the whole-Eval miter on general material; king pairs not in the case split"},
+			Assumptions: []string{"special endings: positions are kings on the case's squares plus up to three minor pieces, each present or absent, knight or bishop, either colour, any free square (this class contains every position on which Eval takes the insufficient-material or the KNB-v-K path)", "run-time panics inside Eval (table index ranges driven by popcounts) are not part of this check: paths are not restricted by a no-panic assumption either"},
 			Stubs: []string{"attacks.RookMoves/BishopMoves -> ray-walk specification per square, licensed by re-proving the C12 lemma on this run", "evaluation coefficients, sigmoid and phase tables from the real init/var values (native dump)"},
 		}
 		n := 1
@@ -49,6 +51,10 @@ func init() {
 					return m
 				}
 				s.Instances = append(s.Instances, run.Instance{Pkg: "eval", Func: "VpH_C17_indep", Params: with("", 0), Opt: run.Options{TimeoutMs: 300000, PanicMode: "ignore"}})
+				s.Instances = append(s.Instances, run.Instance{Pkg: "eval", Func: "VpH_C17_special", Params: with("", 0), Opt: run.Options{TimeoutMs: 300000}})
+				for cl := int64(0); cl < 2; cl++ {
+					s.Instances = append(s.Instances, run.Instance{Pkg: "eval", Func: "VpH_C17_path", Params: with("class", cl), Opt: run.Options{TimeoutMs: 300000}})
+				}
 				for _, part := range []int64{0, 1, 3, 4} {
 					s.Instances = append(s.Instances, run.Instance{Pkg: "eval", Func: "VpH_C17_terms", Params: with("part", part), Opt: run.Options{TimeoutMs: 300000, PanicMode: "ignore"}})
 				}
